@@ -558,6 +558,12 @@ func (up *SyncClient) sendNodesLocal(node data.NodeEdge) error {
 
 func (up *SyncClient) syncNode(parent, id string) error {
 	var err error
+	if up.ncRemote == nil {
+		// the sync ticker or a late connection event may fire after the
+		// upstream connection was torn down (sync disabled, URI changed)
+		return errors.New("no upstream connection")
+	}
+
 	if up.rootRemote.ID == "" {
 		up.rootRemote, err = GetRootNode(up.ncRemote)
 		if err != nil {
